@@ -47,6 +47,10 @@ def op_str(o):
         return f"D{o[1]}.{'H' if o[2] == 'h' and o[1] % 2 == 1 else o[2]}"
     if k == "B":
         return "B"
+    if k == "X" and o[1] % 3 == 1:
+        # hidden variation: a cancelled request that holds a connection is ended by a panic inside its future (the handle
+        # is dropped during unwinding) instead of a plain drop; the same environment step for the model
+        return f"Z{o[1]}"
     return f"{k}{o[1]}"
 
 
@@ -246,7 +250,7 @@ def gen_template(rng):
     k = rng.randrange(7)
     pb = rng.choice([1, 2])
     t = rng.choice(["preempt_owner", "preempt_owner", "pop_window", "pushback", "owner_fails", "refill", "refill",
-                    "owner_dropped", "owner_dropped", "bg_attempt_dies", "bg_attempt_dies", "queued_waiters", "queued_waiters", "window_bg_dies"])
+                    "owner_dropped", "owner_dropped", "bg_attempt_dies", "bg_attempt_dies", "queued_waiters", "queued_waiters", "window_bg_dies", "holder_cancelled"])
     if t == "preempt_owner":
         ops = [["I", k, 1], ["P", 0], ["D", 0, "o"], ["P", 0],
                ["I", k, 2], ["P", 1], ["I", k, pb], ["P", 2],
@@ -288,6 +292,23 @@ def gen_template(rng):
         ops += rng.choice([[["D", 0, "o"], ["B"]], [["D", 0, "c"], ["B"]], [["B"], ["D", 0, "o"], ["B"]]])
         ops += [["P", 1], ["I", k, 2], ["P", 3 if len([o for o in ops if o[0] == "I"]) == 3 else 2]]
         nreq, nconn = 4, 2
+    elif t == "holder_cancelled":
+        # requests that HOLD a connection are cancelled (for ids 1, 4, ... the harness ends them by a panic inside the
+        # request future) while newcomers wait or arrive; the released connections become ready later (or never)
+        n = rng.choice([2, 3])
+        rs = list(range(n))
+        ops = [["I", k, 1] for _ in rs] + [["P", r] for r in rs] + [["D", r, "o"] for r in rs] + [["P", r] for r in rs]
+        ops += rng.choice([[], [["I", k, 1], ["P", n]]])
+        victims = [r for r in rs if r % 3 == 1] + rng.sample(rs, 1)
+        for r in victims:
+            ops += [["X", r]]
+            ops += rng.choice([[], [["I", k, 1]], [["B"]]])
+        nreq = sum(1 for o in ops if o[0] == "I")
+        ops += [["I", k, 1], ["P", nreq]]
+        for c in rng.sample(rs, rng.randint(0, n)):
+            ops += [["R", c], ["B"]]
+        ops += [["P", nreq]]
+        nreq, nconn = nreq + 1, n
     elif t == "window_bg_dies":
         # a shared handle popped by an unpolled request; in that window another HTTP/2 request dials; the first is
         # polled (the handle is pushed back and pre-empts the dialer); the dialer's abandoned attempt then dies
@@ -541,7 +562,7 @@ class Pool(Plugin):
                                "re-issue injected into the window between an Issue and its first poll), phase-structured histories "
                                "(bursts served, partial releases + hand-back, ticks, peer closes, newcomers), timed 'aging' histories "
                                f"(real sleeps: {TICK_MS} ms ticks vs a {TIMEOUT_MS} ms idle timeout; {kinds['timed']} timed cases) and perturbed interleaving "
-                               "templates (pre-empted owner, pop window, push-back, failing owner, refill at the idle limit, owner dropped, abandoned background attempt dying after the queue emptied, several queued requests served by successive hand-backs, a dial started inside the shared-handle window whose abandoned attempt dies) and idle-limit "
+                               "templates (pre-empted owner, pop window, push-back, failing owner, refill at the idle limit, owner dropped, abandoned background attempt dying after the queue emptied, several queued requests served by successive hand-backs, a dial started inside the shared-handle window whose abandoned attempt dies, holders cancelled / panicking while newcomers wait) and idle-limit "
                                "histories (idle list driven to max_idle, entries closed in place, further releases, newcomers); 1-3 origins "
                                "from a table of 7 URIs differing in scheme/port/host/case + one without scheme + 3 whose request carries an explicit Host header naming another or the same origin + 2 with userinfo in the authority + ws / wss next to http / https, h1/h2/ALPN mixed, dial "
                                f"outcomes ok/alpn/connect-error/handshake-error; {kinds['drained']} cases end with the closing procedure + probe",
